@@ -4,7 +4,13 @@
 //   ELEM=1 : 136-byte struct -> items_per_page == 1 (page allocated on every push, freed on every pop)
 //   ELEM=2 : 72-byte struct  -> items_per_page == 2 (second item of a page re-uses tail_page without the page mutex)
 //   ELEM=0 : int             -> items_per_page == 32
+#if REALCPP
+// the real r1:: entry points of the bounded queue (wait/notify/abort wrappers, predicate_leq, representation allocation) are part of the unit;
+// the external boundary moves down to concurrent_monitor_base::wait / notify(pred) / abort_all (cut, contract stubs in the harness)
+#include "src/tbb/concurrent_bounded_queue.cpp"
+#else
 #include "oneapi/tbb/concurrent_queue.h"
+#endif
 using namespace tbb;
 
 #ifndef ELEM
@@ -131,6 +137,11 @@ extern "C" void vp_q_set_capacity(queue_t* q, long c) { q->set_capacity(c); }
 extern "C" long vp_q_capacity(queue_t* q) { return q->capacity(); }
 // the wait predicate handed to r1::wait_bounded_queue_monitor (true = keep waiting); called by the harness stub of that function
 extern "C" int vp_call_pred(tbb::detail::d1::delegate_base* p) { return (*p)(); }
+#if REALCPP
+// the selection predicate that the real notify_bounded_queue_monitor hands to concurrent_monitor::notify, applied to a sleeper's context
+extern "C" int vp_call_leq(const tbb::detail::r1::predicate_leq* p, unsigned long ctx) { return (*p)(ctx); }
+extern "C" unsigned long vp_node_ctx(tbb::detail::r1::sleep_node<std::uintptr_t>* n) { return n->my_context; }
+#endif
 #endif
 extern "C" void vp_q_push(queue_t* q, unsigned val) { elem_t e; e.v = val; q->push(e); }
 extern "C" int vp_q_try_pop(queue_t* q, unsigned* out) { elem_t e; e.v = 0; bool ok = q->try_pop(e); *out = e.v; return ok; }
